@@ -1177,6 +1177,9 @@ class C04(PropertyCheck):
         "QipVerif.C04.if_bitorder_repaired",
         "QipVerif.C04.if_value_counterexample",
         "QipVerif.C04.if_measure_counterexample",
+        "QipVerif.C04.import_rejects_redeclaration",
+        "QipVerif.C04.import_redeclaration_witnesses",
+        "QipVerif.C04.redeclaration_counterexample",
     ]
     level_text = ("Lean 4 theorems: every qelib1.inc gate that the importer replaces by a library gate equals the standard's "
                   "expansion to U/CX up to one global phase for all parameters (23 matrix identities over C); for every program "
@@ -1396,14 +1399,16 @@ class C04(PropertyCheck):
             extra += list(empty_body_programs())
         if variant["body_checked"]:
             extra += list(body_statement_programs())
-        if variant["redecl_checked"]:
-            extra += list(redeclaration_programs())
+        redecl = list(redeclaration_programs()) if variant["redecl_checked"] else []
+        rng.shuffle(redecl)
         rng.shuffle(extra)
         near = list(near_equal_call_programs())
         rng.shuffle(near)
         for p in near[: (len(near) if (ctx.thorough or full) else 14)]:
             yield p
-        for p in extra[: (len(extra) if ctx.thorough else 50)]:
+        for p in redecl:
+            yield p
+        for p in extra[: (len(extra) if (ctx.thorough or full) else 50)]:
             yield p
         # operand shapes first: element + containing register must be rejected, element + other register imported
         shapes = list(shape_programs([(2, 2), (1, 3), (3, 1)], with_three=False)) + \
